@@ -91,6 +91,14 @@ def contract_case(task):
         try:
             s = Solver(p, SolverParameters(eps=0.0, r=2.0, itersLimit=max(1, pre + extra)))
             s.AddListener(make_listener_class(mask, events)())
+            twin_events = None
+            if task.get("twin"):
+                # a second, distinct listener object that compares equal to the first (value semantics, e.g. a dataclass)
+                twin_events = []
+                cls1 = make_listener_class(mask, twin_events)
+                cls1.__eq__ = lambda self, other: True
+                cls1.__hash__ = lambda self: 1
+                s.AddListener(cls1())
             if task.get("other"):
                 # an unrelated solver without listeners of its own, constructed after the listener was attached and
                 # iterated between this solver's calls: the listener must hear nothing of it
@@ -126,6 +134,11 @@ def contract_case(task):
     over = {c for b, c in enumerate(CALLBACKS) if mask >> b & 1}
     ctx = f"N={N}: listener overriding {sorted(over)}, batches {list(comp)} then Solve(+{extra})" + \
           (f", objective fails at evaluation {fault_at}" if fault_at else "") + (", unrelated solver in between" if other else "")
+    if twin_events is not None:
+        strip = lambda evs: [(e[0],) + tuple(e[1:2]) if e[0] == "OnEndIteration" else (e[0],) for e in evs if e[0] != "eval"]
+        if strip(twin_events) != strip(events):
+            msgs.append(f"{ctx}: a second listener that compares equal to the first received "
+                        f"{len(strip(twin_events))} notifications, the first {len(strip(events))}")
     if foreign:
         msgs.append(f"{ctx}: the listener received {[e[0] for e in foreign]} while an unrelated solver was working")
     if fault_at is not None:
@@ -234,6 +247,10 @@ def run_with(N, names, refine=False):
     """one Solve with the named shipped listeners (and a recorder when 'rec' is in names)"""
     import matplotlib.pyplot as plt
     cfg = dict(N=N, box=("B1", "B1", "B2")[N - 1], env=("sin", "quad", "abs13")[N - 1])
+    for nm in names:
+        if nm.startswith("env:"):          # "env:<objective>:<box>" selects another objective / box for this run
+            _, cfg["env"], cfg["box"] = nm.split(":")
+    names = [nm for nm in names if not nm.startswith("env:")]
     lo, up = box(cfg["box"], N)
     f = make_env(cfg["env"], cfg)
     p = EnvProblem(N, lo, up, f)
@@ -305,7 +322,7 @@ def console_report_ok(res):
 
 def shipped_case(task):
     N, names, refine = task["N"], task["names"], bool(task.get("refine"))
-    ref = run_with(N, [], refine)
+    ref = run_with(N, [n for n in names if n.startswith("env:")], refine)
     got = run_with(N, names, refine)
     ctx = f"N={N} listeners {names}" + (" refineSolution=True" if refine else "")
     if ref.get("error"):
@@ -342,6 +359,7 @@ def run(ctx):
                             tasks.append(dict(N=N, mask=mask, comp=list(comp), extra=extra))
                             if 0 not in comp and extra == 2 and mask in (2, 7, 15) and n >= 1:
                                 tasks.append(dict(N=N, mask=mask, comp=list(comp), extra=extra, other=True))
+                                tasks.append(dict(N=N, mask=mask, comp=list(comp), extra=extra, twin=True))
                             if 0 not in comp and extra == 2 and mask in (2, 15) and n >= 2:
                                 for fa in range(2, n + 1):
                                     tasks.append(dict(N=N, mask=mask, comp=list(comp), extra=extra, fault_at=fa))
@@ -364,6 +382,11 @@ def run(ctx):
     for N in (1, 2, 3):
         allN = [n for n in names if specs[n][0] == N]
         stasks.append(dict(N=N, names=["rec"] + allN))
+        # an objective that is exactly 0.0 at its best trial (first trial of |u - 1/2| on [0,1]) and a constant one
+        if N == 1:
+            for mode in ("full", "custom", "result"):
+                stasks.append(dict(N=1, names=[f"console-{mode}-N1", "env:sym:B0"]))
+                stasks.append(dict(N=1, names=[f"console-{mode}-N1", "env:const:B1"]))
         # with the local refinement switched on the final report must still be the returned Solution
         for mode in ("full", "custom", "result"):
             stasks.append(dict(N=N, names=[f"console-{mode}-N{N}"], refine=True))
